@@ -851,10 +851,13 @@ def check_sort_contract(ctx, rule, modname="mesh.datatypes.surface", qual="Surfa
     fills = [s for s in au.stmts(fn.body) if isinstance(s, ast.Assign) and len(s.targets) == 1 and isinstance(s.targets[0], ast.Subscript)
              and is_name(s.targets[0].value, table)]
     gets = []
+    plain = []          # fills with a plain value (the corner-less case answered by a test instead of the default of .get)
     for s in fills:
         v = s.value
         if isinstance(v, ast.Call) and au.call_tail(v) == "get" and len(v.args) == 2:
             gets.append(S.canon(v.args[1], s))
+        elif not any(isinstance(n, (ast.Call, ast.Subscript)) for n in ast.walk(S.canon(v, s)) if not (isinstance(n, ast.Call) and au.call_tail(n) == "float")):
+            plain.append(S.canon(v, s))
         else:
             gets = None
             break
@@ -876,6 +879,16 @@ def check_sort_contract(ctx, rule, modname="mesh.datatypes.surface", qual="Surfa
         elif is_inf or neg_txt or isinstance(au.const(e), (int, float)):
             verdicts.append("bad")
         else:
+            verdicts.append("?")
+    for d in plain:
+        # a constant stored under a test: only -inf is known to be the corner-less value; anything else is not judged
+        e, neg = d, False
+        while isinstance(e, ast.UnaryOp) and isinstance(e.op, (ast.USub, ast.UAdd)):
+            neg = (not neg) if isinstance(e.op, ast.USub) else neg
+            e = e.operand
+        inf = (isinstance(e, ast.Call) and au.call_tail(e) == "float" and e.args and str(au.const(e.args[0])).lower().lstrip("+") in ("inf", "infinity")) \
+            or au.src(e) in ("math.inf", "np.inf", "numpy.inf", "inf", "np.Inf", "np.infty")
+        if not (inf and neg):
             verdicts.append("?")
     if "bad" in verdicts:
         ctx.fail(rule, site, "_sort_vertex_neighborhoods: the neighbour without a half-edge corner is not sorted first (key -inf, ascending)",
